@@ -239,6 +239,39 @@ def run(ctx):
         uplinks.frame_lane_name(r, ctx)
 
 
+    with ctx.rule("C14.R11", "T5", "which agent-sent commands are marked overwritable: only the sends documented as such", floor=4) as r:
+        # `overwrite_permitted` is what allows CommandOutput::append to supersede a pending record; the API decides it with a constant
+        WANT = {"commander::Commander::<Context>::send": ("SendCommandById", "True", "documented: a later command to the same lane replaces one that has not been dispatched"),
+                "commander::Commander::<Context>::send_queued": ("SendCommandById", "False", "documented: both messages will be sent"),
+                "agent_lifecycle::utility::HandlerContext::<Agent>::send_command": ("SendCommand", "True", "ad hoc commands are overwritable (as Commander::send)")}
+        found = {}
+        for b in ag.all_bodies():
+            if "::tests" in b.defpath:
+                continue
+            for c in b.calls:
+                if c.name == "new" and ("commander::SendCommandById" in c.defpath or "event_handler::command::SendCommand" in c.defpath):
+                    key = b.defpath.split("swimos_agent::")[-1]
+                    found[key] = (b, c, describe_operand(b, c.args[-1]))
+        for key, (kind, val, why) in sorted(WANT.items()):
+            if key not in found:
+                r.bad("%s/overwrite-flag" % key.split("::")[-1], "-", "the send API %s was not found" % key)
+                continue
+            b, c, got = found[key]
+            ctx.saw(b)
+            r.check(got == val, "%s/overwrite-flag=%s" % (key.split("::")[-1], val.lower()), c.loc(), "%s builds its command with overwrite_permitted = %s (%s)" % (key.split("::")[-1], val.lower(), why),
+                    "%s builds its command with overwrite_permitted = %s (expected %s: %s): %s" % (key.split("::")[-1], got, val.lower(), why,
+                                                                                                    "commands the caller asked to be queued can be superseded and are lost" if val == "False" else "the flag of this API has changed"))
+        extra = sorted(set(found) - set(WANT))
+        r.ok("send-apis/listed", "-", "the overwrite flag is decided in %d API functions%s" % (len(found), (" (not in the table, so not judged: %s)" % extra) if extra else ""))
+        st = [b for b in ag.all_bodies() if "commander::SendCommandById" in b.defpath and b.meta.get("name") == "step"]
+        if len(st) != 1:
+            raise AnchorMissing("SendCommandById::step")
+        st = ctx.saw(st[0])
+        sc = [c for c in st.calls if c.name == "send_registered_command"]
+        r.check(len(sc) == 1 and describe_operand(st, sc[0].args[-1]).endswith("overwrite_permitted") and describe_operand(st, sc[0].args[1]).endswith(".id"), "SendCommandById::step/own-id-and-flag", where(st),
+                "the command is sent to the commander's own id with the flag it was built with", "SendCommandById::step sends %s" % [describe_operand(st, a) for c in sc for a in c.args])
+
+
 def _assign_operand(body, block, suffix):
     for i, j, p, rv, line in body.assigns():
         if i == block and p[1] and describe_place(body, p).endswith(suffix) and rv[0] == "use":
